@@ -589,6 +589,14 @@ func (ctx Ctx) methodExpr(call *ast.CallExpr) coq.Expr {
 		f = indexF.X
 	}
 
+	if signature, ok := ctx.typeOf(f).(*types.Signature); ok && signature.Variadic() {
+		if _, isIdent := f.(*ast.Ident); isIdent {
+			// the variadic arguments would be passed as separate arguments
+			// instead of as one slice
+			ctx.unsupported(call, "call to a variadic function")
+		}
+	}
+
 	switch f := f.(type) {
 	case *ast.Ident:
 		typeArgs := ctx.typeList(call, ctx.info.Instances[f].TypeArgs)
